@@ -265,6 +265,8 @@ func checkC08(c *Ctx) {
 		}
 	}
 
+	checkC08WhereKept(c)
+
 	// ---- C08.unscoped-writers ----
 	ru := c.Rule("C08.unscoped-writers", "WHO-WRITES(Statement.Unscoped): true only in (*DB).Unscoped; otherwise copies of another statement's Unscoped; library Unscoped() calls guarded; nested sessions propagate", 7)
 	unF := p.Field(stmtT, "Unscoped")
